@@ -141,6 +141,19 @@ func (n *Net) takeFault(link string) *Fault {
 	return nil
 }
 
+// FiredOn sums the fired-fault counters of every link whose name starts with prefix.
+func (n *Net) FiredOn(prefix string) int {
+	n.mu.Lock()
+	defer n.mu.Unlock()
+	t := 0
+	for k, v := range n.Fired {
+		if strings.HasPrefix(k, prefix) {
+			t += v
+		}
+	}
+	return t
+}
+
 // FiredSorted returns fired fault counters in a stable order.
 func (n *Net) FiredSorted() []string {
 	n.mu.Lock()
